@@ -647,6 +647,15 @@ void checkRoundTrip(Reporter& rep, Ctx& c, const Batch& b, const std::vector<std
             wire::appendMessage(f, 1, 2, i == 2 ? wire::SEG_FIRST : 0, 0x10, pl);
             dec.decode(f.data(), f.size());
         }
+        if (r.chance(1, 2))
+        {
+            // and a reassembly left open on the very endpoint the batch will arrive on
+            Bytes f = wire::frameHeader(1, dev, wire::MT_DATA, stream, static_cast<uint16_t>(r.next()));
+            Bytes pl = r.bytes(r.range(1, 30));
+            wire::appendMessage(f, 9, 9, wire::SEG_FIRST, 0x10, pl);
+            dec.decode(f.data(), f.size());
+            c.count("roundtrip_with_open_reassembly_on_same_endpoint");
+        }
         c.count("roundtrip_with_decoder_history");
     }
     std::vector<std::shared_ptr<Packet>> got;
